@@ -154,6 +154,33 @@ def run_case(case, ctx):
         o = call(curve, junk)
         ctx.check(not o.ok, "eval:junk-accepted", f"curve({junk!r}) returned {lib.short(o.value) if o.ok else ''}")
     ctx.check(lib.curve_digest(curve) == state0, "eval:modified", "evaluation modified the curve")
+    # the definition refers to the curve's *current* knot vector: map it in place through the public KnotVector
+    # operations and evaluate again (state carried inside the curve must follow)
+    how = (len(params) + len(U)) % 4
+    if how < 3 and judged:
+        import copy as _copy
+
+        curve0, curve = curve, _copy.deepcopy(curve)  # the map is applied to a copy; the original serves the checks below
+        kvobj = curve.knotvector
+        a_, s_ = lib.num(F(3, 2), nt if nt != "int" else "frac"), lib.num(F(2), nt if nt != "int" else "frac")
+        o = call(kvobj.shift, a_) if how == 0 else (call(kvobj.scale, s_) if how == 1 else call(kvobj.normalize))
+        if ctx.check(o.ok, f"eval:remap-raises:{o.exc_name}", f"in-place map of curve.knotvector raised {o.brief()}"):
+            try:
+                rc2 = lib.to_rc(curve)
+            except Exception as e:
+                rc2 = None
+                ctx.check(False, "eval:remap-state", f"curve state inconsistent after an in-place map of its knot vector: {e!r}")
+            if rc2 is not None:
+                ex2 = exact and all(lib.is_exact_number(k) for k in kvobj)
+                ctx.count("evaluations_after_inplace_map")
+                for x0, x1 in zip(rc2.breaks(), rc2.breaks()[1:]):
+                    for x in ref.sample_points(x0, x1, 1) + [x0]:
+                        un = x if ex2 else float(x)
+                        o = call(curve, un)
+                        if not ctx.check(o.ok, f"eval:remap-eval-raises:{o.exc_name}", f"curve({x}) raised {o.brief()} after an in-place map of its knot vector"):
+                            break
+                        ctx.check(lib.same_point(o.value, rc2(ref.fr(un)), ex2), "eval:after-inplace-map", f"after an in-place map of curve.knotvector, curve({x}) = {lib.short(o.value)} but the definition on the current knot vector gives {lib.short(rc2(ref.fr(un)))}")
+        curve = curve0
     # matrices of the heavy layer
     from compmec.nurbs import heavy
 
